@@ -1,0 +1,28 @@
+//! Verification hook, only compiled with `--cfg ohrs_verif_loom`: a look-alike of
+//! [`std::sync::LazyLock`] built on [`loom::lazy_static::Lazy`], so that the first use of the
+//! embedded databases goes through loom's controlled scheduler.
+//!
+//! Loom's `Lazy` is re-initialised for every explored execution and lets several threads run the
+//! initialiser when they race for the first use (one result is kept), which is a superset of the
+//! behaviours of the standard `LazyLock`.
+
+use std::marker::PhantomData;
+use std::ops::Deref;
+
+pub(crate) struct LazyLock<T: 'static>(loom::lazy_static::Lazy<T>);
+
+impl<T: 'static> LazyLock<T> {
+    pub(crate) const fn new(init: fn() -> T) -> Self {
+        Self(loom::lazy_static::Lazy { init, _p: PhantomData })
+    }
+}
+
+impl<T: 'static> Deref for LazyLock<T> {
+    type Target = T;
+
+    fn deref(&self) -> &T {
+        // SAFETY: this type is only used for `static` items.
+        let this: &'static Self = unsafe { &*(self as *const Self) };
+        this.0.get()
+    }
+}
